@@ -167,6 +167,13 @@ Definition naming_writes_direct (n : naming) : bool :=
   match n with NNumbersDirect | NTimestampsDirect | NCustom None _ | NCustom (Some []) _ => true | _ => false end.
 Definition ns_filter (n : naming_state) : infix_filter :=
   match n with NSTs _ _ fmt => IFTs fmt | _ => IFNum end.
+(* the filter before the naming state exists (state Initial) *)
+Definition naming_filter (n : naming) : infix_filter :=
+  match n with
+  | NTimestamps | NTimestampsDirect => IFTs std_fmt
+  | NCustom _ fmt => IFTs fmt
+  | NNumbers | NNumbersDirect => IFNum
+  end.
 
 (* ------------------------------------------------------------------ names and time *)
 Definition local_civil (w : world) (t : Z) : civil := civil_of (t + woff w).
@@ -277,7 +284,9 @@ Fixpoint cleanup_loop (w : world) (files : list bytes) (index log_limit total : 
       | Some e => if beq e gz_sfx then cleanup_loop w r (S index) log_limit total
                   else let '(ok, w1) := compress_file w n in
                        if ok then cleanup_loop w1 r (S index) log_limit total else (false, w1)
-      | None => cleanup_loop w r (S index) log_limit total
+      | None => (* a log file without suffix has no extension *)
+                let '(ok, w1) := compress_file w n in
+                if ok then cleanup_loop w1 r (S index) log_limit total else (false, w1)
       end
     else cleanup_loop w r (S index) log_limit total
   end.
@@ -367,7 +376,8 @@ Definition collision_free (c : config) (w : world) (infix : bytes) : res bytes *
   let '(fl2, w2) := tick w1 in
   if fl2 then (Err, w2) else
   match collision_free_infix (woff w2) (c_spec c) (fixed_of c w2) (wfs w2) infix with
-  | Some i => (Ok i, w2)
+  | Some (Some i) => (Ok i, w2)
+  | Some None => (Err, w2)
   | None => (Panic, w2)
   end.
 
@@ -403,7 +413,7 @@ Definition latest_timestamp_file (c : config) (w : world) (rotate : bool) (fmt :
   if rotate then (Ok (wnow w), w) else
   with_listing w (fun w' =>
     let fixed := fixed_of c w' in
-    match filter_files (woff w') (fsfx (c_spec c)) fixed (related_files (wfs w') fixed) IFNum (fsfx (c_spec c)) with
+    match filter_files (woff w') (fsfx (c_spec c)) fixed (related_files (wfs w') (fsfx (c_spec c)) fixed) IFNum (fsfx (c_spec c)) with
     | None => None
     | Some files =>
       match map_opt (ts_infix_from_name (c_spec c) fixed) files with
